@@ -718,3 +718,114 @@ Theorem C13_starvation_by_stream :
   objs (steps 27 g_s) 0 = [2] /\ objs (steps 28 g_s) 0 = [].
 Proof. exact g_starved. Qed.
 Print Assumptions C13_starvation_by_stream.
+
+(* ======================================================================== fifth round *)
+(* Two of the run-checked side facts of C13_every_acquirer_served derived from the step itself
+   (Sched/LockArrive.v: the relations of the C12 no-overtake pass strengthened, the pass replayed).
+   Vocabulary: an entry e of lock l has key [epri e], arrival number [eseq e], future [fo e];
+   [seqn q] is the arrival counter of the queue (pq_add numbers the new entry with it;
+   reset_if_empty restarts it only on an empty array). *)
+From Asynkit Require Sched.LockArrive.
+
+(* 5a. The queue invariant: every arrival number is below the counter, and arrival numbers are
+   ordered like the ids of the futures.  It holds in every state reached from an initial state by a
+   run without asynkit.eager() starts ([run_ne], checked along the run like run_ok), whatever the
+   loop kind, the priorities, cancellations, re-keying by priority inheritance. *)
+Theorem C13_arrival_numbers_follow_creation_order_reachable :
+  forall prio_loop factor draws lks cds nev acts l,
+    let s0 := init_st prio_loop factor draws lks cds nev in
+    run_ok s0 acts -> WaitProofs.run_ne s0 acts ->
+    let s := fold_left do_action acts s0 in
+    let q := lpq (getl s l) in
+    (forall a, In a (arr q) -> (eseq a < seqn q)%Z) /\
+    (forall a b, In a (arr q) -> In b (arr q) ->
+       Z.to_nat (eobj a) < Z.to_nat (eobj b) -> (eseq a < eseq b)%Z).
+Proof.
+  intros prio_loop factor draws lks cds nev acts l s0 H1 H2.
+  exact (LockArrive.AI_reachable l prio_loop factor draws lks cds nev acts H1 H2).
+Qed.
+Print Assumptions C13_arrival_numbers_follow_creation_order_reachable.
+
+(* 5b. [arrival_ids] along a quiet run: if the queue invariant holds in the first state (one state:
+   by 5a, or by the boolean LockArrive.AIb), then in every state of the run the arrival numbers of
+   the entries of l are in the creation order of their futures - the hypothesis [arrival_ids] of
+   C13_served_in_arrival_order_equal_priorities / fifo_run. *)
+Theorem C13_arrival_ids_along_quiet_run :
+  forall factor draws lks cds nev acts,
+    let s0 := init_st false factor draws lks cds nev in
+    run_ok s0 acts -> PartitionRun.actions_ok s0 acts ->
+    let s := fold_left do_action acts s0 in
+    forall l n,
+    quiet n s ->
+    (forall a, In a (arr (lpq (getl s l))) -> (eseq a < seqn (lpq (getl s l)))%Z) ->
+    (forall a b, In a (arr (lpq (getl s l))) -> In b (arr (lpq (getl s l))) ->
+       Z.to_nat (eobj a) < Z.to_nat (eobj b) -> (eseq a < eseq b)%Z) ->
+    forall k, k <= n ->
+    forall a b, In a (arr (lpq (getl (steps k s) l))) -> In b (arr (lpq (getl (steps k s) l))) ->
+      Z.to_nat (eobj a) < Z.to_nat (eobj b) -> (eseq a < eseq b)%Z.
+Proof.
+  intros factor draws lks cds nev acts s0 H1 H2 s l n Hq A1 A2 k Hk.
+  exact (LockArrive.arrival_ids_run l n s (R_reach factor draws lks cds nev acts H1 H2) Hq (conj A1 A2) k Hk).
+Qed.
+Print Assumptions C13_arrival_ids_along_quiet_run.
+
+(* 5c. [arrivals_pending]: in one quiet step no entry of l is woken in the very step in which it
+   arrives (acquire() returns a suspension right after enqueueing, and the rest of the step - 
+   propagate_priority, the bookkeeping of Task.__step - wakes no queued future of l). *)
+Theorem C13_arrival_not_woken_in_its_step :
+  forall factor draws lks cds nev acts,
+    let s0 := init_st false factor draws lks cds nev in
+    run_ok s0 acts -> PartitionRun.actions_ok s0 acts ->
+    let s := fold_left do_action acts s0 in
+    forall l g,
+    run_one_ok s /\ run_one_np s ->
+    In g (pq_objs (lpq (getl (run_one s) l))) -> ~ In g (pq_objs (lpq (getl s l))) ->
+    woken (run_one s) g = false.
+Proof.
+  intros factor draws lks cds nev acts s0 H1 H2 s l g [Hok Hnp].
+  exact (LockArrive.step_arrivals_pending l s
+           (LockRounds.R_inv s (R_reach factor draws lks cds nev acts H1 H2)) Hok
+           (LockFifo.run_one_np_ne s Hnp) g).
+Qed.
+Print Assumptions C13_arrival_not_woken_in_its_step.
+
+(* 5d. C13_every_acquirer_served for equal stored keys with those two facts discharged.  What
+   remains of [fifo_run]: equal stored keys in the states of the run ([eqkeys], e.g. all key 0),
+   the holder of l not suspended in an acquire() in the states before the last one ([calmf], C12's
+   F16 side condition), and the queue invariant of 5a in the FIRST state only.  Unchanged:
+   holders release within K loop steps, ready queue at most M handles, no cancelled waiter behind w. *)
+Theorem C13_every_acquirer_served_equal_keys :
+  forall factor draws lks cds nev acts,
+    let s0 := init_st false factor draws lks cds nev in
+    run_ok s0 acts -> PartitionRun.actions_ok s0 acts ->
+    let s := fold_left do_action acts s0 in
+    forall K M l fw r,
+    let B := bound K M r in
+    lkind_ (getl s l) = LPrio -> In fw (pq_objs (lpq (getl s l))) ->
+    quiet B s ->
+    (forall k, k <= B -> rq_len (ready (steps k s)) <= M) ->
+    (forall i, i <= B -> llocked (getl (steps i s) l) = true ->
+       exists j, i < j <= i + K /\ llocked (getl (steps j s) l) = false) ->
+    (forall k, k <= B -> forall g, In g (pq_objs (lpq (getl (steps k s) l))) ->
+       fdone (steps k s) g = true -> g = fw \/ blocker (steps k s) l fw g = true) ->
+    (* the queue invariant in the first state *)
+    (forall a, In a (arr (lpq (getl s l))) -> (eseq a < seqn (lpq (getl s l)))%Z) ->
+    (forall a b, In a (arr (lpq (getl s l))) -> In b (arr (lpq (getl s l))) ->
+       Z.to_nat (eobj a) < Z.to_nat (eobj b) -> (eseq a < eseq b)%Z) ->
+    (* equal stored keys in every state of the run *)
+    (forall k, k <= B -> forall a b, In a (arr (lpq (getl (steps k s) l))) ->
+       In b (arr (lpq (getl (steps k s) l))) -> qltb (epri a) (epri b) = false) ->
+    (* the holder of l is not suspended in an acquire() *)
+    (forall k, k < B -> NoOvertakeThms.calmf (steps k s) l) ->
+    nblk s l fw <= r ->
+    exists n t, n < B /\
+      (forall j, j <= n -> In fw (pq_objs (lpq (getl (steps j s) l)))) /\
+      In fw (pq_objs (lpq (getl (steps n s) l))) /\
+      (exists had rest, tframes (steps n s) t = InFut fw :: InAcquireP l fw had :: rest) /\
+      exists h q, ready (steps n s) = RList (h :: q) /\ task_of_handle (steps n s) h = Some t.
+Proof.
+  intros factor draws lks cds nev acts s0 H1 H2 s K M l fw r B Hk Hf Hq Hb Hrel Hcb A1 A2 He Hc Hm.
+  exact (LockArrive.served_equal_derived K M l fw r s (R_reach factor draws lks cds nev acts H1 H2)
+           Hk Hf Hq Hb Hrel Hcb (conj A1 A2) He Hc Hm).
+Qed.
+Print Assumptions C13_every_acquirer_served_equal_keys.
